@@ -46,6 +46,7 @@ def run_tunnel(hist, seed=0, route_back=False):
     trace = []
     with virtual_world(seed) as loop:
         sim = GatewaySim(loop, "udp", auto_reconnect=True, auto_reconnect_wait=1, route_back=route_back)
+        sim.odd_cemi = True
 
         async def main():
             await sim.tun.connect()
@@ -128,7 +129,10 @@ def run_dm(hist, seed=0):
                 ch = 7 + choff
                 up.clear()
                 acks.clear()
-                raw = bytes([0xFB, 0, 0, 1, 0x34, 0x10, 0x01, n & 0xFF])
+                # what the frame carries is the consumer's business: property answers, T_Data_Connected.ind (0x89), T_Data_Individual.ind (0x94),
+                # a code unknown to the library, a single octet - the counter rule is the same for all of them
+                raw = [bytes([0xFB, 0, 0, 1, 0x34, 0x10, 0x01, n & 0xFF]), bytes([0x89, 0, 0, 0, 0, 0, 0, n & 0xFF]), bytes([0x94, 0, 0, 0, n & 0xFF]),
+                       bytes([0x5A, n & 0xFF]), bytes([n & 0xFF])][n % 5]
                 body = DeviceConfigurationRequest(communication_channel_id=ch, sequence_counter=c, raw_cemi=raw)
                 data = KNXIPFrame.init_from_body(body).to_knx()
                 loop.inject(tr.transport.deliver, data, GW)
